@@ -46,7 +46,7 @@ var parseChain = map[string]bool{
 func init() {
 	register(&propertySpec{
 		ID: "C01", Fixtures: []string{"FMTCONST", "EXTCUT"}, NeedCG: true, Quick: cfgAMD, Thorough: cfgAll,
-		Explanation: "Decides the structural conditions PAR2 repair rests on, for every path of the code: the only failure of reconstruction - a singular or under-determined system - is propagated as an error through every frame from the row reduction up to par2.Repair (ERRFLOW on the reconstruct chain); Repair returns nil only after every buffer it wrote matched the archive's 16k-hash and MD5, and a mismatch returns an error (WGUARD with error returns); writer and reader agree on the coder constructor, on its dimensions being the lengths of the very slices handed to it (the parity table is indexed by exponent), on slice cutting/padding and on the checksum functions (PAIR); every recovery block accepted as a parity shard has the slice size the coder's equal-length precondition needs (SHLEN); per-file damage flags are written to the record Repair reads, not to a copy (DEADST/LOCALCOPY); intact files are recognised with the full per-file predicate (SKIPOK); expected and found slice locations accumulate, so repeated slice contents do not consume recovery blocks (ACCUM); the coder workers partition the slice correctly for every goroutine count (RACE); Repair declares success only through Decoder.Repair (ENTRY-SEQ); the file writer replaces whole files (EFF write-impl). Round-3 additions: after a data file has been read, no return skips the slice search or the two file-level checks (MUSTPASS); elementary row operations cover the whole row of the matrix they touch, also of the wider augmented matrix (ROWCOVER); every surviving recovery block is a candidate row - a nil shard is skipped, it does not end the scan (FILTER).",
+		Explanation: "Decides the structural conditions PAR2 repair rests on, for every path of the code: the only failure of reconstruction - a singular or under-determined system - is propagated as an error through every frame from the row reduction up to par2.Repair (ERRFLOW on the reconstruct chain); Repair returns nil only after every buffer it wrote matched the archive's 16k-hash and MD5, and a mismatch returns an error (WGUARD with error returns); writer and reader agree on the coder constructor, on its dimensions being the lengths of the very slices handed to it (the parity table is indexed by exponent), on slice cutting/padding and on the checksum functions (PAIR); every recovery block accepted as a parity shard has the slice size the coder's equal-length precondition needs (SHLEN); per-file damage flags are written to the record Repair reads, not to a copy (DEADST/LOCALCOPY); intact files are recognised with the full per-file predicate (SKIPOK); expected and found slice locations accumulate, so repeated slice contents do not consume recovery blocks (ACCUM); the coder workers partition the slice correctly for every goroutine count (RACE); Repair declares success only through Decoder.Repair (ENTRY-SEQ); the file writer replaces whole files (EFF write-impl). Round-3 additions: after a data file has been read, no return skips the slice search or the two file-level checks (MUSTPASS); elementary row operations cover the whole row of the matrix they touch, also of the wider augmented matrix (ROWCOVER); every surviving recovery block is a candidate row - a nil shard is skipped, it does not end the scan (FILTER). Later additions: format strings, extension cuts and index-path prefixes are literal (FMTCONST, EXTCUT, BASECUT); the checksum map returns exactly m[crc][md5(data)] (GETKEYS); no write follows a failed reconstruction and the not-enough error needs a missing slice (NOWRITE, NEEDSLICE); the file reader returns the OS error itself, which the missing-file test needs (ERRIDENT); no value is copied into a like-typed field of another name (FIELDCROSS); deep comparisons compare like with like (DEEPEQ).",
 		NotDecided:  []string{"that Repair succeeds whenever k blocks survive (matrix algebra, slice search at every offset)", "volume discovery beyond what C06 decides", "the values of the reconstructed bytes"},
 		Run: func(w *World, r *Report, tier string) {
 			guard(r, "ERRFLOW", func() {
@@ -78,7 +78,7 @@ func init() {
 
 	register(&propertySpec{
 		ID: "C02", Fixtures: []string{"EFF"}, NeedCG: true, Quick: cfgAMD, Thorough: cfgAll,
-		Explanation: "Decides, for every path of the code (hence every archive state and both double-check settings): which code may mutate the filesystem at all and that the one primitive replaces whole files (EFF E1-E5), that every byte buffer Repair writes is the very buffer whose 16k-hash and MD5 were just compared with the hashes of the archive entry the target path was derived from (WGUARD), that a path is reported iff its write returned nil and reported paths survive to the caller also when Repair fails later (REPORT, REPORT-PROP), that writes are control-dependent on the file having been found damaged (SKIPOK), that Create's output names do not depend on the input names (CREATE-PATHS), and that no function reachable from Verify contains or reaches a write. These are necessary conditions: breaking any of them breaks the property. The protected name a reader stores or checks is the decoded wire name, unaltered (NAMEFID).",
+		Explanation: "Decides, for every path of the code (hence every archive state and both double-check settings): which code may mutate the filesystem at all and that the one primitive replaces whole files (EFF E1-E5), that every byte buffer Repair writes is the very buffer whose 16k-hash and MD5 were just compared with the hashes of the archive entry the target path was derived from (WGUARD), that a path is reported iff its write returned nil and reported paths survive to the caller also when Repair fails later (REPORT, REPORT-PROP), that writes are control-dependent on the file having been found damaged (SKIPOK), that Create's output names do not depend on the input names (CREATE-PATHS), and that no function reachable from Verify contains or reaches a write. These are necessary conditions: breaking any of them breaks the property. The protected name a reader stores or checks is the decoded wire name, unaltered (NAMEFID). Later additions: a return reachable from a write does not drop the list of repaired paths (REPORT nil-after-write); the write primitive creates temporaries only beside the target, never under a name derived from it alone, and renames onto the parameter path (EFF write-impl); PAR1 names are sized per UTF-16 unit on both sides (PAIR); no write follows a failed reconstruction (NOWRITE).",
 		NotDecided:  []string{"byte equality with the original beyond MD5/16k-hash equality", "the effect of a torn ioutil.WriteFile", "correctness of the reconstruction arithmetic"},
 		Run: func(w *World, r *Report, tier string) {
 			guard(r, "EFF", func() { ruleEFF(w, r, effOpts{e1: true, e2: true, e3: true, e4: true, e5: true, impl: true}) })
@@ -95,7 +95,7 @@ func init() {
 
 	register(&propertySpec{
 		ID: "C03", NeedCG: true, Quick: cfgAMD, Thorough: cfgAll,
-		Explanation: "Decides what the PAR2 verdict is computed from: the verdict predicates are evaluated exhaustively over their finite comparison domain against the table the property states, and the counters are incremented exactly on the nil / non-nil edge of the element they range over, the wrong-file counter exactly under !ok (DECIDE); a slice is recorded as found only for a non-empty CRC32+MD5 lookup of that very slice, packets are accepted only with their MD5 verified over (set id, type, body), packets of other sets are skipped and volume files are read with the decoder's set id (GATE); every per-file and per-slice flag computed while loading can reach the verdict, and is written to the record, not to a local copy of it (DEADST/LOCALCOPY); the expected-location map and the per-slice location sets accumulate - every place a slice content is expected, and every place it is found, is recorded (ACCUM); Verify's result is built from the decoder's counts after both load phases (ENTRY-SEQ). The packet MD5 is computed over set id, type and the whole body (CONST hash orders); no return of the per-file loader skips the whole-file hash or length check (MUSTPASS); the directory is asked for exactly '<base>.' + ext with base cut by length (GLOBCALL).",
+		Explanation: "Decides what the PAR2 verdict is computed from: the verdict predicates are evaluated exhaustively over their finite comparison domain against the table the property states, and the counters are incremented exactly on the nil / non-nil edge of the element they range over, the wrong-file counter exactly under !ok (DECIDE); a slice is recorded as found only for a non-empty CRC32+MD5 lookup of that very slice, packets are accepted only with their MD5 verified over (set id, type, body), packets of other sets are skipped and volume files are read with the decoder's set id (GATE); every per-file and per-slice flag computed while loading can reach the verdict, and is written to the record, not to a local copy of it (DEADST/LOCALCOPY); the expected-location map and the per-slice location sets accumulate - every place a slice content is expected, and every place it is found, is recorded (ACCUM); Verify's result is built from the decoder's counts after both load phases (ENTRY-SEQ). The packet MD5 is computed over set id, type and the whole body (CONST hash orders); no return of the per-file loader skips the whole-file hash or length check (MUSTPASS); the directory is asked for exactly '<base>.' + ext with base cut by length (GLOBCALL). Later additions: the slice search is left only once the position has reached len(data) (SCANALL); the checksum map returns exactly m[crc][md5(data)] (GETKEYS); the volume lister matches literally and completely (GLOB); extension and prefix cuts are by length (EXTCUT, BASECUT); the file reader returns the OS error itself (ERRIDENT); stored names are the decoded wire names (NAMEFID); hash fields are not crossed (FIELDCROSS); parse errors propagate (ERRFLOW on the parsing functions).",
 		NotDecided:  []string{"completeness of the slice search (rolling CRC, every offset) - C16", "the count of distinct recovery blocks beyond acceptance"},
 		Run: func(w *World, r *Report, tier string) {
 			guard(r, "DECIDE", func() {
@@ -117,13 +117,14 @@ func init() {
 			guard(r, "EXTCUT", func() { ruleEXTCUT(w, r) })
 			guard(r, "DEADST", func() { ruleDEADST(w, r) })
 			guard(r, "ACCUM", func() { ruleACCUM(w, r) })
+			guard(r, "SCANALL", func() { ruleSCANALL(w, r) })
 			guard(r, "ENTRY-SEQ", func() { ruleENTRYSEQ(w, r, "par2") })
 		},
 	})
 
 	register(&propertySpec{
 		ID: "C04", Fixtures: []string{"EXTCUT"}, NeedCG: true, Quick: cfgAMD, Thorough: cfgAll,
-		Explanation: "Decides the structural conditions of the PAR1 round trip: encoder and decoder construct the same coder - reedsolomon.New(len(fileData), parity, WithPAR1Matrix()) - (PAIR); a data file counts as usable only after both hashes matched its entry, a parity volume only with verified control hash, the index volume's set hash and the volume number of its file name, and the probing loop covers exactly the volume numbers 1..max (GATE); the counts are incremented on the right edges and the verdict predicates equal the stated table (DECIDE); the coder's too-few-shards / singular error reaches the caller unchanged, where the classifier compares it by identity (ERRFLOW on the PAR1 chain, PAIR-ERRTYPE); the padding length is shown non-negative before make() (MKLEN); the full parity check runs only when all files are usable, names are sized per UTF-16 code unit, and verify/repair declare success only through the decoder (GATE, PAIR, ENTRY-SEQ); the file writer replaces whole files (EFF write-impl).",
+		Explanation: "Decides the structural conditions of the PAR1 round trip: encoder and decoder construct the same coder - reedsolomon.New(len(fileData), parity, WithPAR1Matrix()) - (PAIR); a data file counts as usable only after both hashes matched its entry, a parity volume only with verified control hash, the index volume's set hash and the volume number of its file name, and the probing loop covers exactly the volume numbers 1..max (GATE); the counts are incremented on the right edges and the verdict predicates equal the stated table (DECIDE); the coder's too-few-shards / singular error reaches the caller unchanged, where the classifier compares it by identity (ERRFLOW on the PAR1 chain, PAIR-ERRTYPE); the padding length is shown non-negative before make() (MKLEN); the full parity check runs only when all files are usable, names are sized per UTF-16 code unit, and verify/repair declare success only through the decoder (GATE, PAIR, ENTRY-SEQ); the file writer replaces whole files (EFF write-impl). Later additions: extension and prefix cuts by length (EXTCUT, BASECUT); no branch on the decoded name (NAMESYM); only saved entries become shards (SAVEDONLY); the caller's volume count is kept (OPTKEEP); the shard size comes from the first volume found, not from volume 1 (SIZESENT); hash fields are not crossed (FIELDCROSS); the reader returns the OS error itself (ERRIDENT); written buffers matched their entry and intact files are skipped (WGUARD, SKIPOK).",
 		NotDecided:  []string{"the matrix algebra inside klauspost/reedsolomon", "the range of volume numbers probed and padding arithmetic as values", "UTF-16 name handling beyond using unicode/utf16 on both sides (C10)"},
 		Run: func(w *World, r *Report, tier string) {
 			guard(r, "PAIR", func() { rulePAIRpar1(w, r); rulePAIRERRTYPE(w, r) })
@@ -139,6 +140,7 @@ func init() {
 			guard(r, "EXTCUT", func() { ruleEXTCUT(w, r) })
 			guard(r, "NAMESYM", func() { ruleNAMESYM(w, r, "par1") })
 			guard(r, "SAVEDONLY", func() { ruleSAVEDONLY(w, r) })
+			guard(r, "PAR1VOL", func() { rulePAR1VOL(w, r) })
 			guard(r, "ERRIDENT", func() { ruleERRIDENT(w, r) })
 			guard(r, "OPTKEEP", func() { ruleOPTKEEP(w, r) })
 			guard(r, "SIZESENT", func() { ruleSIZESENT(w, r) })
@@ -151,7 +153,7 @@ func init() {
 
 	register(&propertySpec{
 		ID: "C05", NeedCG: true, Quick: cfgAMD, Thorough: cfgAll,
-		Explanation: "Compares what Create emits with tables transcribed from the PAR 2.0 specification, independently of gopar's own reader (a mistake shared by writer and reader keeps every round-trip test green): packet magic and the five packet types by value and their wiring to the body writers, wire struct layouts, little-endian only, IEEE CRC32 and MD5 only, hash input orders of the packet MD5 and the file ID, recovery set id = MD5 of the main packet body as written, a creator packet on every success path, field polynomial 0x1100B, log-domain modulus 65535, generator residues {3,5,17,257} and base 2 (CONST); tables are filled over their whole index range (TABLEFILL); writer and reader use the same coder, slicing and checksums (PAIR); the recovery set is sorted by file id before anything is derived from it (DETERM D-c); the byte partition of the coder workers is word-aligned and covers the slice (RACE).",
+		Explanation: "Compares what Create emits with tables transcribed from the PAR 2.0 specification, independently of gopar's own reader (a mistake shared by writer and reader keeps every round-trip test green): packet magic and the five packet types by value and their wiring to the body writers, wire struct layouts, little-endian only, IEEE CRC32 and MD5 only, hash input orders of the packet MD5 and the file ID, recovery set id = MD5 of the main packet body as written, a creator packet on every success path, field polynomial 0x1100B, log-domain modulus 65535, generator residues {3,5,17,257} and base 2 (CONST); tables are filled over their whole index range (TABLEFILL); writer and reader use the same coder, slicing and checksums (PAIR); the recovery set is sorted by file id before anything is derived from it (DETERM D-c); the byte partition of the coder workers is word-aligned and covers the slice (RACE). Later additions: the requested recovery block count is kept (OPTKEEP); the generator table keeps its order (GENORDER); hash fields are not crossed (FIELDCROSS); format strings and prefix cuts are literal (FMTCONST, BASECUT); the bulk kernels cover the buffers they are given (ASM, KGUARD); the writer replaces whole files (EFF write-impl).",
 		NotDecided:  []string{"the recovery block values", "that blocks 0..n-1 each occur exactly once across the volume files", "the direction of the file-id ordering beyond byte order"},
 		Run: func(w *World, r *Report, tier string) {
 			guard(r, "CONST", func() { ruleCONST(w, r, constOpts{field: true, generators: true, par2: true}) })
@@ -160,6 +162,8 @@ func init() {
 			guard(r, "EFF", func() { ruleEFF(w, r, effOpts{e1: true, impl: true, onlyPkg: "par2"}) })
 			guard(r, "OPTKEEP", func() { ruleOPTKEEP(w, r) })
 			guard(r, "GENORDER", func() { ruleGENORDER(w, r) })
+			guard(r, "VOLCOVER", func() { ruleVOLCOVER(w, r) })
+			guard(r, "EXPKEY", func() { ruleEXPKEY(w, r) })
 			guard(r, "FIELDCROSS", func() { ruleFIELDCROSS(w, r) })
 			guard(r, "DETERM", func() { ruleDETERM(w, r) })
 			guard(r, "FMTCONST", func() { ruleFMTCONST(w, r) })
@@ -180,7 +184,7 @@ func init() {
 
 	register(&propertySpec{
 		ID: "C06", Fixtures: []string{"GLOB", "DEEPEQ"}, NeedCG: true, Quick: cfgAMD, Thorough: cfgAll,
-		Explanation: "Decides the reader-side structure that layout independence needs: volume discovery lists the directory with an error-returning API and matches prefix and suffix literally, with no further filter, so no base name is interpreted as a pattern and every '<base>.*.par2' beside the index file is returned (GLOB); a file of the set without a main packet cannot be dereferenced (NILF); packets of other sets and of unknown types are skipped without ending the file or storing anything (GATE G2/G3); the exponent-indexed parity table grows without narrow-type wrap and the coder has a row for every index of it (WIRE S2/S5, PAIR); comparisons of duplicated packets compare like with like and the sparse parity table is never compared as a whole (DEEPEQ); a header-only packet is accepted (CONST length bound). Volume discovery asks for exactly '<base>.' + ext (GLOBCALL); the handling of one packet type never branches on state written while handling another type, so packet order cannot matter (ORDERINDEP); the coder considers every surviving recovery block, also after a gap in the exponents (FILTER).",
+		Explanation: "Decides the reader-side structure that layout independence needs: volume discovery lists the directory with an error-returning API and matches prefix and suffix literally, with no further filter, so no base name is interpreted as a pattern and every '<base>.*.par2' beside the index file is returned (GLOB); a file of the set without a main packet cannot be dereferenced (NILF); packets of other sets and of unknown types are skipped without ending the file or storing anything (GATE G2/G3); the exponent-indexed parity table grows without narrow-type wrap and the coder has a row for every index of it (WIRE S2/S5, PAIR); comparisons of duplicated packets compare like with like and the sparse parity table is never compared as a whole (DEEPEQ); a header-only packet is accepted (CONST length bound). Volume discovery asks for exactly '<base>.' + ext (GLOBCALL); the handling of one packet type never branches on state written while handling another type, so packet order cannot matter (ORDERINDEP); the coder considers every surviving recovery block, also after a gap in the exponents (FILTER). Later additions: extension and prefix cuts by length (EXTCUT, BASECUT); names pass the sanitiser unaltered (SANIT, NAMEFID); parse errors propagate (ERRFLOW on the parsing functions).",
 		NotDecided:  []string{"insensitivity to packet order and duplication as behaviour"},
 		Run: func(w *World, r *Report, tier string) {
 			guard(r, "GLOB", func() { ruleGLOB(w, r, globAll) })
@@ -195,6 +199,7 @@ func init() {
 			guard(r, "EXTCUT", func() { ruleEXTCUT(w, r) })
 			guard(r, "BASECUT", func() { ruleBASECUT(w, r) })
 			guard(r, "ORDERINDEP", func() { ruleORDERINDEP(w, r) })
+			guard(r, "EXPKEY", func() { ruleEXPKEY(w, r) })
 			guard(r, "SANIT", func() { ruleSANIT(w, r) })
 			guard(r, "NAMEFID", func() { ruleNAMEFID(w, r, "par2") })
 			guard(r, "ERRFLOW", func() { ruleERRFLOW(w, r, errflowScope{fnNames: parseChain, tag: " in the parsing functions"}, 40) })
@@ -204,7 +209,7 @@ func init() {
 
 	register(&propertySpec{
 		ID: "C07", NeedCG: true, Quick: cfgAMD, Thorough: cfgAll,
-		Explanation: "Decides the ownership and error structure of the coder: GenerateParity never writes its data shards; ReconstructData never writes parity and writes data only at depth 1 (nil rows replaced), never at byte depth (OWN, bottom-up write summaries incl. the assembly kernels and the unsafe casts); the dedicated not-enough-parity type is returned exactly on the fewer-inputs-than-data-shards edge and is the type the PAR2 classifier asserts (PAIR-ERRTYPE); a singular system is reported as an error in every frame (ERRFLOW on the coder chain); row and element copies in the matrix code have provably equal lengths (COPYLEN); the workers' ranges are disjoint, word-aligned, cover the shard and are joined (RACE). Row operations cover the full row of the matrix they touch (ROWCOVER); the parity-row selection is a filter over all rows (FILTER).",
+		Explanation: "Decides the ownership and error structure of the coder: GenerateParity never writes its data shards; ReconstructData never writes parity and writes data only at depth 1 (nil rows replaced), never at byte depth (OWN, bottom-up write summaries incl. the assembly kernels and the unsafe casts); the dedicated not-enough-parity type is returned exactly on the fewer-inputs-than-data-shards edge and is the type the PAR2 classifier asserts (PAIR-ERRTYPE); a singular system is reported as an error in every frame (ERRFLOW on the coder chain); row and element copies in the matrix code have provably equal lengths (COPYLEN); the workers' ranges are disjoint, word-aligned, cover the shard and are joined (RACE). Row operations cover the full row of the matrix they touch (ROWCOVER); the parity-row selection is a filter over all rows (FILTER). Later additions: elimination and solving shapes - pivot on the diagonal, every other row eliminated, the inverse taken from the reduced right half (ELIM, SOLVE, INVSOLVE); kernels and their tables (ASM, KGUARD, TABLEFILL).",
 		NotDecided:  []string{"MDS reconstruction: that a nil error means the restored shards equal the originals", "row swaps and elimination as values"},
 		Run: func(w *World, r *Report, tier string) {
 			guard(r, "OWN", func() { ruleOWN(w, r, ownOpts{coder: true}) })
@@ -232,7 +237,7 @@ func init() {
 
 	register(&propertySpec{
 		ID: "C08", NeedCG: true, Quick: cfgAMD32, Thorough: cfgAll,
-		Explanation: "Decides the constants and index arithmetic the field identities depend on: tables are built by reduction modulo 0x1100B, every log-domain modulus is 65535 and equals the table lengths, the tables are filled over their whole range (CONST field, TABLEFILL); every index into a table lies inside it and no intermediate value on the way to an index exceeds its type - zero operands leave before any log lookup, logT*p is formed in 64 bits (RANGE, per GOARCH). Each is necessary: % 65536, a missing zero guard or a 32-bit product all break the stated identities. No value in gf2/gf2p16 passes through a floating-point type or package math (INTONLY).",
+		Explanation: "Decides the constants and index arithmetic the field identities depend on: tables are built by reduction modulo 0x1100B, every log-domain modulus is 65535 and equals the table lengths, the tables are filled over their whole range (CONST field, TABLEFILL); every index into a table lies inside it and no intermediate value on the way to an index exceeds its type - zero operands leave before any log lookup, logT*p is formed in 64 bits (RANGE, per GOARCH). Each is necessary: % 65536, a missing zero guard or a 32-bit product all break the stated identities. No value in gf2/gf2p16 passes through a floating-point type or package math (INTONLY). Later additions: 0^p is decided on the unreduced exponent and exponent arithmetic is reduced mod 65535 in 64 bits (ZEROEXP); Div and Inverse return only after the zero test (ZERODIV).",
 		NotDecided:  []string{"the products themselves over 2^32 operand pairs", "gf2.Poly64 multiplication and division as values"},
 		Run: func(w *World, r *Report, tier string) {
 			guard(r, "CONST", func() { ruleCONST(w, r, constOpts{field: true}) })
@@ -272,7 +277,7 @@ func init() {
 
 	register(&propertySpec{
 		ID: "C10", NeedCG: true, Quick: cfgAMD, Thorough: cfgAll,
-		Explanation: "Compares the PAR1 writer and reader with tables transcribed from the PAR 1.0 specification: header and entry layouts, identification string, version (low 32 bits only on the reader - the high half is the generator id), file list offset 0x60, control hash over bytes from 0x20 on both sides, status bit 0, the 16 KiB prefix, little-endian only (CONST par1); names go through unicode/utf16 on both sides and the PAR1 matrix option is used on both sides (PAIR); the set hash and the data shards cover saved entries only, and a slice that is a filtered image of the entry list is never used to index the unfiltered list (GATE, IDXDOM); table lookups on header fields stay in range (RANGE).",
+		Explanation: "Compares the PAR1 writer and reader with tables transcribed from the PAR 1.0 specification: header and entry layouts, identification string, version (low 32 bits only on the reader - the high half is the generator id), file list offset 0x60, control hash over bytes from 0x20 on both sides, status bit 0, the 16 KiB prefix, little-endian only (CONST par1); names go through unicode/utf16 on both sides and the PAR1 matrix option is used on both sides (PAIR); the set hash and the data shards cover saved entries only, and a slice that is a filtered image of the entry list is never used to index the unfiltered list (GATE, IDXDOM); table lookups on header fields stay in range (RANGE). Later additions: extension/prefix cuts (EXTCUT, BASECUT); no branch on the decoded name (NAMESYM); saved entries only (SAVEDONLY); header fields are stored before the header is written (HDRFIELDS); the requested volume count is kept (OPTKEEP); immutability of the entry list (IMMUT); the writer replaces whole files (EFF write-impl).",
 		NotDecided:  []string{"the parity byte values (GF(2^8) arithmetic in klauspost/reedsolomon)"},
 		Run: func(w *World, r *Report, tier string) {
 			guard(r, "CONST", func() { ruleCONST(w, r, constOpts{par1: true}) })
@@ -285,6 +290,7 @@ func init() {
 			guard(r, "SAVEDONLY", func() { ruleSAVEDONLY(w, r) })
 			guard(r, "OPTKEEP", func() { ruleOPTKEEP(w, r) })
 			guard(r, "HDRFIELDS", func() { ruleHDRFIELDS(w, r) })
+			guard(r, "PAR1VOL", func() { rulePAR1VOL(w, r) })
 			guard(r, "BASECUT", func() { ruleBASECUT(w, r) })
 			guard(r, "EFF", func() { ruleEFF(w, r, effOpts{e1: true, impl: true, onlyPkg: "par1"}) })
 			guard(r, "RANGE", func() { ruleRANGE(w, r, []string{"par1"}, 0) })
@@ -293,7 +299,7 @@ func init() {
 
 	register(&propertySpec{
 		ID: "C11", NeedCG: true, Quick: cfgAMD, Thorough: cfgAll,
-		Explanation: "Decides 'matrix operations never modify their operands' for every exported gf2p16.Matrix constructor and method: receiver, matrix and slice arguments are never written, through any callee including the bulk kernels and the row views (OWN: mutators run only on fresh clones); that copies of rows and element arrays have provably equal lengths, so no row operation moves part of a row (COPYLEN); that a singular matrix is reported as an error in every frame up to the caller (ERRFLOW on the matrix chain); and that the bulk kernels the row operations run through cover the whole row and stay inside it (ASM, KGUARD: stride, tail offset, dispatcher coverage).",
+		Explanation: "Decides 'matrix operations never modify their operands' for every exported gf2p16.Matrix constructor and method: receiver, matrix and slice arguments are never written, through any callee including the bulk kernels and the row views (OWN: mutators run only on fresh clones); that copies of rows and element arrays have provably equal lengths, so no row operation moves part of a row (COPYLEN); that a singular matrix is reported as an error in every frame up to the caller (ERRFLOW on the matrix chain); and that the bulk kernels the row operations run through cover the whole row and stay inside it (ASM, KGUARD: stride, tail offset, dispatcher coverage). Later additions: elimination shapes (ELIM, INVSOLVE), full-row coverage (ROWCOVER), the split multiplication tables are filled for every constant (TABLEFILL).",
 		NotDecided:  []string{"correctness of the inverse and of the row-reduced product as values", "that an error is reported exactly when the matrix is singular (pivot search as values)"},
 		Run: func(w *World, r *Report, tier string) {
 			guard(r, "OWN", func() { ruleOWN(w, r, ownOpts{matrix: true}) })
@@ -318,7 +324,7 @@ func init() {
 
 	register(&propertySpec{
 		ID: "C12", Fixtures: []string{"GLOBALS"}, NeedCG: true, Quick: cfgAMD, Thorough: cfgAll,
-		Explanation: "Decides race freedom and schedule independence of the coder workers for all goroutine counts, lengths and interleavings from the shape of the code: captures are stable, workers only call applyMatrixSlice, each worker's range is exactly [i*P, min(i*P+P, N)) with P >= 16 a multiple of 16 (word-aligned) and N the true length, the number of workers is ceil(N/P) unmodified - so the ranges are pairwise disjoint AND cover [0,N) -, the other dimension is passed whole, Add/Done/Wait bracket the loop (RACE); the kernels write only through their out argument (OWN, which reads the assembly kernels by their out* parameters); no package-level state is written after initialisation (GLOBALS); the goroutine option reaches nothing but the coder (DETERM D-e).",
+		Explanation: "Decides race freedom and schedule independence of the coder workers for all goroutine counts, lengths and interleavings from the shape of the code: captures are stable, workers only call applyMatrixSlice, each worker's range is exactly [i*P, min(i*P+P, N)) with P >= 16 a multiple of 16 (word-aligned) and N the true length, the number of workers is ceil(N/P) unmodified - so the ranges are pairwise disjoint AND cover [0,N) -, the other dimension is passed whole, Add/Done/Wait bracket the loop (RACE); the kernels write only through their out argument (OWN, which reads the assembly kernels by their out* parameters); no package-level state is written after initialisation (GLOBALS); the goroutine option reaches nothing but the coder (DETERM D-e). Later additions: the goroutine option is bounded below by 1 wherever the default is not taken (GOPT); the default count itself is >= 1 on every path, an undetectable core count (0) included (DEFPOS); the coder's dimensions are those of the slices handed to it (PAIR); kernels and tables (ASM, KGUARD, TABLEFILL).",
 		NotDecided:  []string{"that the single-threaded result is the right one (C07/C09)", "that the assembly kernels stay inside the out slice they are given (decided under C09: ASM/KGUARD)", "the Go memory model itself"},
 		Run: func(w *World, r *Report, tier string) {
 			guard(r, "RACE", func() { ruleRACE(w, r) })
@@ -327,6 +333,7 @@ func init() {
 			guard(r, "DETERM", func() { r.rule("DETERM", ruleDETERMText); determGoroutineOption(w, r) })
 			guard(r, "PAIR", func() { rulePAIRpar2(w, r, pairOpts{encoder: true, decoder: true}) })
 			guard(r, "GOPT", func() { ruleGOPT(w, r) })
+			guard(r, "DEFPOS", func() { ruleDEFPOS(w, r) })
 			guard(r, "TABLEFILL", func() {
 				if w.GOARCH == "amd64" {
 					ruleTABLEFILL(w, r, 2, "mulTable", "mulTable64")
@@ -342,7 +349,7 @@ func init() {
 
 	register(&propertySpec{
 		ID: "C13", Fixtures: []string{"BUFNEXT"}, NeedCG: true, Quick: cfgAMD32, Thorough: cfgAll,
-		Explanation: "Decides necessary conditions for 'corruption never crashes or misleads': every integer that comes from an archive - including the packet length, which no checksum covers - is bounded before it is converted, used as a size, as a slice bound or as a divisor, and bytes from Buffer.Next are length-checked before indexing (WIRE, per GOARCH); nil-able packet pointers are checked before use (NILF); allocation lengths that are differences are shown non-negative (MKLEN); table lookups on header fields stay in range (RANGE); everything accepted lies behind the packet MD5 / control hash / set id gates, so bit flips stop there (GATE); parse errors are propagated, never turned into results (ERRFLOW on the parsing functions). Nil checks that detect a missing packet can actually fire (NILLIVE); a slice collected by appends is indexed with a constant only under a lower bound on its length (NONEMPTY); the coder has a row for every index of the exponent-indexed parity table (PAIR decoder dims).",
+		Explanation: "Decides necessary conditions for 'corruption never crashes or misleads': every integer that comes from an archive - including the packet length, which no checksum covers - is bounded before it is converted, used as a size, as a slice bound or as a divisor, and bytes from Buffer.Next are length-checked before indexing (WIRE, per GOARCH); nil-able packet pointers are checked before use (NILF); allocation lengths that are differences are shown non-negative (MKLEN); table lookups on header fields stay in range (RANGE); everything accepted lies behind the packet MD5 / control hash / set id gates, so bit flips stop there (GATE); parse errors are propagated, never turned into results (ERRFLOW on the parsing functions). Nil checks that detect a missing packet can actually fire (NILLIVE); a slice collected by appends is indexed with a constant only under a lower bound on its length (NONEMPTY); the coder has a row for every index of the exponent-indexed parity table (PAIR decoder dims). Later additions: a packet with an empty checksum list is rejected (IFSCPAIRS); reslicing to h is preceded by h <= len or cap (SLICECAP); the slice-record table has one element per checksum pair (SHARDTAB); nothing is allocated from a declared size before it was compared with data held (ALLOCBOUND); the reader returns the OS error itself (ERRIDENT); no write after a failed reconstruction (NOWRITE); the write primitive is whole-file (EFF write-impl).",
 		NotDecided:  []string{"full panic freedom (the compiler leaves 60+ bounds checks unproven in the readers; relational reasoning)", "termination of every loop", "crash prefixes of Create as histories"},
 		Run: func(w *World, r *Report, tier string) {
 			guard(r, "WIRE", func() { ruleWIRE(w, r) })
@@ -367,7 +374,7 @@ func init() {
 
 	register(&propertySpec{
 		ID: "C14", Fixtures: []string{"GLOBALS", "EFF"}, NeedCG: true, Quick: cfgAMD, Thorough: cfgAll,
-		Explanation: "Decides that the only state between operations is the directory and that operations treat it as the property requires: no package-level variable is written after initialisation (GLOBALS); Verify reaches no write (EFF E3); Repair rewrites a file only if the full per-file predicate - evaluated before reconstruction overwrites the slice records, with the same index as the entry - found it damaged, the very predicate Verify's verdict uses (SKIPOK, DECIDE counts); only buffers that matched the entry's hashes are written, each to the entry's own name, and reported iff written (WGUARD, REPORT). The writer primitive replaces whole files (EFF write-impl); damage flags are stored to the record, not to a copy (DEADST/LOCALCOPY); decoder state is marked restored only after the write succeeded (POSTWRITE).",
+		Explanation: "Decides that the only state between operations is the directory and that operations treat it as the property requires: no package-level variable is written after initialisation (GLOBALS); Verify reaches no write (EFF E3); Repair rewrites a file only if the full per-file predicate - evaluated before reconstruction overwrites the slice records, with the same index as the entry - found it damaged, the very predicate Verify's verdict uses (SKIPOK, DECIDE counts); only buffers that matched the entry's hashes are written, each to the entry's own name, and reported iff written (WGUARD, REPORT). The writer primitive replaces whole files (EFF write-impl); damage flags are stored to the record, not to a copy (DEADST/LOCALCOPY); decoder state is marked restored only after the write succeeded (POSTWRITE). Later additions: the checksum map returns exactly m[crc][md5(data)] (GETKEYS); no write after a failed reconstruction, not-enough only with a missing slice (NOWRITE, NEEDSLICE); the PAR1 shard size comes from the first volume found (SIZESENT); every surviving block is a candidate (FILTER); volume listing literal and complete (GLOB); entries immutable (IMMUT); the PAR1 double check verifies what Reconstruct completed (PAIR).",
 		NotDecided:  []string{"closure of the reachable history graph", "that every location of a repeated slice content is credited (value level)"},
 		Run: func(w *World, r *Report, tier string) {
 			guard(r, "GLOBALS", func() { ruleGLOBALS(w, r, nil) })
@@ -393,7 +400,7 @@ func init() {
 
 	register(&propertySpec{
 		ID: "C15", Fixtures: []string{"EFF"}, NeedCG: true, Quick: cfgAMD, Thorough: cfgAll,
-		Explanation: "Decides that every flow from an archive-declared name to a filesystem call passes the check-and-join: the PAR2 reader accepts a description packet only after checkFilename accepted the very name it carries; checkFilename tests the cleaned name, the raw name reaching only IsAbs and Clean; getFilePath joins Dir(index path) with the unmodified validated field (PAR1: only after Base(name)==name); no decoder file operation takes a path derived from a name field except through getFilePath; PAR2 Create stores only Rel(basePath, .) results that do not start with a dot (SANIT); no other filesystem access exists (EFF). Names are not altered between the wire and the path (NAMEFID) and no I/O happens on a bare set-relative name (ANCHOR).",
+		Explanation: "Decides that every flow from an archive-declared name to a filesystem call passes the check-and-join: the PAR2 reader accepts a description packet only after checkFilename accepted the very name it carries; checkFilename tests the cleaned name, the raw name reaching only IsAbs and Clean; getFilePath joins Dir(index path) with the unmodified validated field (PAR1: only after Base(name)==name); no decoder file operation takes a path derived from a name field except through getFilePath; PAR2 Create stores only Rel(basePath, .) results that do not start with a dot (SANIT); no other filesystem access exists (EFF). Names are not altered between the wire and the path (NAMEFID) and no I/O happens on a bare set-relative name (ANCHOR). Later additions: the write primitive creates temporaries only in the target's directory and renames onto the parameter path (EFF write-impl, where-it-writes clause); Create's base path is the directory of the absolute index path (DETERM D-d).",
 		NotDecided:  []string{"that the predicates reject exactly the traversing spellings on every platform (e.g. backslashes on Windows)"},
 		Run: func(w *World, r *Report, tier string) {
 			guard(r, "SANIT", func() { ruleSANIT(w, r) })
@@ -406,7 +413,7 @@ func init() {
 
 	register(&propertySpec{
 		ID: "C17", Fixtures: []string{"FMTCONST", "GLOBALS"}, NeedCG: true, Quick: cfgAMD, Thorough: cfgAll,
-		Explanation: "Decides that Create's output depends only on its inputs: no time, random or process-identity call on Create's call-graph closure; every range over a map has an order-insensitive body or ranges over a field that is never set there; the recovery set is sorted by file id before it is stored; the names hashed into file ids derive from Rel(Dir(Abs(parPath)), Abs(p)) for every input (PAR1: Base(p)) (DETERM); the output names depend only on the index path (CREATE-PATHS); independence from the goroutine count by the worker partition (RACE). No I/O is done on a bare set-relative name, which would make the result depend on the working directory (ANCHOR); the writer primitive truncates, so outputs do not depend on earlier runs (EFF write-impl).",
+		Explanation: "Decides that Create's output depends only on its inputs: no time, random or process-identity call on Create's call-graph closure; every range over a map has an order-insensitive body or ranges over a field that is never set there; the recovery set is sorted by file id before it is stored; the names hashed into file ids derive from Rel(Dir(Abs(parPath)), Abs(p)) for every input (PAR1: Base(p)) (DETERM); the output names depend only on the index path (CREATE-PATHS); independence from the goroutine count by the worker partition (RACE). No I/O is done on a bare set-relative name, which would make the result depend on the working directory (ANCHOR); the writer primitive truncates, so outputs do not depend on earlier runs (EFF write-impl). Later additions: the input path list is never sorted by spelling (PATHORDER); no reference to a package-level buffer escapes or is written after init (GLOBALS); format strings and prefix cuts are literal (FMTCONST, BASECUT); kernels and tables (ASM, KGUARD, TABLEFILL).",
 		NotDecided:  []string{"byte equality of two runs as such (follows only together with the purity of the kernels, which is value level)"},
 		Run: func(w *World, r *Report, tier string) {
 			guard(r, "DETERM", func() { ruleDETERM(w, r) })
@@ -433,7 +440,7 @@ func init() {
 
 	register(&propertySpec{
 		ID: "C18", Fixtures: []string{"GLOB", "EFF", "ERRKEEP"}, NeedCG: true, Quick: cfgAMD, Thorough: cfgAll,
-		Explanation: "Decides error discipline over every call site rather than sampled fault indices: every error produced by a call in par1, par2 and cmd/par (where all I/O happens) reaches, on every path on which it may be non-nil, a return in error position, a panic or a no-return call; only os.IsNotExist turns a read failure into 'damage' (ERRFLOW, with per-return-site splitting of the immediately-invoked literals). No success is reported for a write that failed (REPORT), nothing but the file being written is touched and the write primitive replaces the whole file (EFF), and the directory lister uses an error-returning API and matches names literally (GLOB). Decoder state is marked restored only on the success edge of the write (POSTWRITE).",
+		Explanation: "Decides error discipline over every call site rather than sampled fault indices: every error produced by a call in par1, par2 and cmd/par (where all I/O happens) reaches, on every path on which it may be non-nil, a return in error position, a panic or a no-return call; only os.IsNotExist turns a read failure into 'damage' (ERRFLOW, with per-return-site splitting of the immediately-invoked literals). No success is reported for a write that failed (REPORT), nothing but the file being written is touched and the write primitive replaces the whole file (EFF), and the directory lister uses an error-returning API and matches names literally (GLOB). Decoder state is marked restored only on the success edge of the write (POSTWRITE). Later additions: a deferred or nested function assigns the shared error variable only where it is known nil (ERRKEEP).",
 		NotDecided:  []string{"that a rerun after the fault completes as if the fault had never occurred", "torn writes", "faults inside the Go runtime or the OS"},
 		Run: func(w *World, r *Report, tier string) {
 			guard(r, "ERRFLOW", func() {
@@ -449,7 +456,7 @@ func init() {
 
 	register(&propertySpec{
 		ID: "C19", NeedCG: true, Quick: cfgAMD32, Thorough: cfgAll,
-		Explanation: "Decides necessary conditions for rejecting well-checksummed but inconsistent archives without crashing: all wire integers (18 discovered fields, the recovery exponent, the decoder's int copies) are bounded before conversion, allocation, slicing and division; narrow-type arithmetic does not wrap before widening (WIRE, per GOARCH); recovery blocks have the slice size (SHLEN); mandatory packets are checked before use (NILF); differences used as lengths are non-negative (MKLEN); header-field table lookups stay in range (RANGE); and no buffer that fails the archive's own 16k-hash or MD5 is written (WGUARD).",
+		Explanation: "Decides necessary conditions for rejecting well-checksummed but inconsistent archives without crashing: all wire integers (18 discovered fields, the recovery exponent, the decoder's int copies) are bounded before conversion, allocation, slicing and division; narrow-type arithmetic does not wrap before widening (WIRE, per GOARCH); recovery blocks have the slice size (SHLEN); mandatory packets are checked before use (NILF); differences used as lengths are non-negative (MKLEN); header-field table lookups stay in range (RANGE); and no buffer that fails the archive's own 16k-hash or MD5 is written (WGUARD). Later additions: empty checksum lists rejected (IFSCPAIRS); reslicing bounded by len/cap (SLICECAP); one slice record per checksum pair (SHARDTAB); no allocation from an unchecked declared size (ALLOCBOUND); the coder has a row for every exponent index (PAIR decoder dims).",
 		NotDecided:  []string{"proportional allocation in general (the coder matrix is sized by the highest exponent; the slice size is used as allocation unit)", "full panic freedom", "overflow of products such as index*sliceSize"},
 		Run: func(w *World, r *Report, tier string) {
 			guard(r, "WIRE", func() {
@@ -473,7 +480,7 @@ func init() {
 
 	register(&propertySpec{
 		ID: "C20", Fixtures: []string{"GLOB", "EFF"}, NeedCG: true, Quick: cfgAMD, Thorough: cfgAll,
-		Explanation: "Decides the exit-status mapping of cmd/par.main on its control-flow graph with no-return inference and a small abstract interpreter for the helpers: after each library call no path with a non-nil error reaches status 0 and every status there is a known non-zero constant; verify's success side exits with processRepairChecker(result counts); the repair error of each format reaches that format's classifier before any exit and the classifier's true edge exits 2; formats are selected by path.Ext; usage errors exit 3; main cannot fall off its end (CLI 1-6). processRepairChecker and the verdict predicates are evaluated exhaustively over their finite comparison domain against the table in the property (DECIDE). The type the PAR2 classifier asserts is exactly the type ReconstructData returns on the not-enough-parity edge (PAIR-ERRTYPE). Volume discovery returns every matching directory entry, so 'possible' is judged on all recovery files present (GLOB). The library operations declare success only through the decoder (ENTRY-SEQ) and relative data paths are made absolute against the current directory with filepath.Abs (DETERM D-d). The PAR1 double check verifies shards completed by Reconstruct, parity included (PAIR reconstruct-then-verify).",
+		Explanation: "Decides the exit-status mapping of cmd/par.main on its control-flow graph with no-return inference and a small abstract interpreter for the helpers: after each library call no path with a non-nil error reaches status 0 and every status there is a known non-zero constant; verify's success side exits with processRepairChecker(result counts); the repair error of each format reaches that format's classifier before any exit and the classifier's true edge exits 2; formats are selected by path.Ext; usage errors exit 3; main cannot fall off its end (CLI 1-6). processRepairChecker and the verdict predicates are evaluated exhaustively over their finite comparison domain against the table in the property (DECIDE). The type the PAR2 classifier asserts is exactly the type ReconstructData returns on the not-enough-parity edge (PAIR-ERRTYPE). Volume discovery returns every matching directory entry, so 'possible' is judged on all recovery files present (GLOB). The library operations declare success only through the decoder (ENTRY-SEQ) and relative data paths are made absolute against the current directory with filepath.Abs (DETERM D-d). The PAR1 double check verifies shards completed by Reconstruct, parity included (PAIR reconstruct-then-verify). Later additions: flag sets use ContinueOnError (CLI 7); the reader returns the OS error itself (ERRIDENT); not-enough needs a missing slice (NEEDSLICE); PAR1 repair without any parity volume reports too few shards (PAR1NOPAR); 'repaired' presupposes that the bytes were written: whole-file write primitive, no dropped write error, reported iff written (EFF write-impl, ERRFLOW, REPORT); PAR1 usability gates (GATE).",
 		NotDecided:  []string{"which library error arises in which archive state (e.g. PAR2 'no parity shards' is an unclassified error)", "flag parsing semantics of package flag", "resolution of relative paths by the OS"},
 		Run: func(w *World, r *Report, tier string) {
 			guard(r, "CLI", func() { ruleCLI(w, r) })
